@@ -634,6 +634,21 @@ pub fn bounded_repeats() -> Vec<String> {
     out
 }
 
+/// A greedy loop over a body that can match empty, VM-compiled, inside a positive look-ahead
+/// that an enclosing loop re-enters (the look-ahead rewinds the position but keeps what its
+/// body saved; seed S10-C20).  F1 class: compared on spans only (C01).
+pub fn empty_loops_in_lookahead() -> Vec<String> {
+    let mut out = Vec::new();
+    for body in ["(?:a|(?=))*", "(a|\\1)*", "(?:a?(?=))*", "(?:a|\\b)*", "(?:(?!b)a?)*"].iter() {
+        for outer in ["(?:(?=X)T)+", "(?:(?=X)T){2}", "(?:(?=X)T)*b", "(?:(?=X)T)+?c"].iter() {
+            for t in ["\\w", "b?", "."].iter() {
+                out.push(outer.replace("X", body).replace("T", t));
+            }
+        }
+    }
+    out
+}
+
 /// Thirty-three and more capture groups around an atomic scope with a failing continuation
 /// (anything that keeps per-slot state in a machine word; seed S10-C05).
 pub fn many_groups() -> Vec<String> {
